@@ -4,7 +4,7 @@ that claiming a property is a one-line change)."""
 import json
 
 SCHED_NOTE = ("sequential consistency; a thread runs atomically between scheduling points (sync operations, sleeps, go, "
-              "accesses to mutable package-level / escaping-closure variables found by the instrumenter); accesses to the fields of "
+              "accesses to mutable package-level / escaping-closure variables found by the instrumenter, sync/atomic operations and sync.Pool Get/Put through stand-ins - the pool is a deterministic LIFO model); accesses to the fields of "
               "lock-carrying structs are not interleaved but feed a vector-clock happens-before check in every scenario (6 single-word / set-once "
               "races of the unchanged tree are allow-listed, DESIGN.md 4.4); shim fidelity to "
               "package sync; schedules within the preemption and free-choice bounds stated in the evidence")
@@ -13,7 +13,7 @@ SCHED_TECH = ("stateless model checking of the implementation: preemption-bounde
 
 CHECKS = {
  "C09": dict(engine="engine-A", cat="model_checking", ref="DESIGN.md 4, 7/C09", note=SCHED_NOTE, tech=SCHED_TECH,
-   text="every schedule of 28 closed drivers of the real engine/pool.ThreadPool (1-3 workers, 1-3 tasks single/burst, WaitAll, "
+   text="every schedule of 32 closed drivers of the real engine/pool.ThreadPool (1-3 workers, 1-3 tasks single/burst, a burst of two whose first task waits for the second to start, WaitAll, "
         "JoinAll with a task that submits a task, resize sequences incl. negative counts with tasks arriving from a second thread, the queue-filling "
         "callback with threshold 1 while a second thread waits in WaitAll, Finish() of a processor while another thread adds an event) within preemption "
         "bound 1-3 and free-choice bound 3 is executed; oracle: no deadlock/livelock while a worker exists and a task is queued, "
@@ -33,10 +33,10 @@ CHECKS = {
         "functions called from ECAL), a schedule with two different names occupied is found, nested same-name entry never blocks, no deadlock, "
         "no lost update on a counter updated only inside the block, owner table and mutexes released at the end; thread ids are allocated inside "
         "the threads and must be pairwise distinct; no unordered access to a field of a lock-carrying struct (e.g. the thread-id counter); a host "
-        "thread keeps its id over Finish / Start of the processor and still excludes the new workers"),
+        "thread keeps its id over Finish / Start of the processor and still excludes the new workers; after the pool is shrunk without waiting and grown again (workers still leaving) a fresh host id differs from every live worker's id (bound 2 quick) and host and sink still exclude each other"),
  "C11": dict(engine="engine-A", also=["engine-B"], cat="model_checking", ref="DESIGN.md 4, 7/C11", note=SCHED_NOTE, tech=SCHED_TECH,
-   text="every schedule (preemption bound 1-2, free-choice bound 1) of 7 drivers: 2-3 events with every mix of failing/succeeding payloads "
-        "trigger the same ECAL sink (and two sinks sharing a global function) on 2-3 workers, each added with wait from its own thread; oracle: "
+   text="every schedule (preemption bound 1-2, free-choice bound 1) of 13 drivers: 2-3 events with every mix of failing/succeeding payloads "
+        "trigger the same ECAL sink (and two sinks sharing a global function; sinks writing different globals / entries of one global container; a script that has its own global variable called event, which must keep its value) on 2-3 workers, each added with wait from its own thread; oracle: "
         "every invocation sees its own event and its own let-local at every probe, the error report of each root is exactly (type, detail, "
         "data) of its own payload, no panic, no happens-before race on any instrumented shared variable or lock-carrying struct field; plus (Engine B, "
         "sequential) for a 14-program corpus covering every statement and operator kind, at top level, inside a function called twice and inside a "
@@ -55,7 +55,7 @@ CHECKS = {
         "texts with characters the process has never lexed x {Parse, ParseWithRuntime}: a reflective snapshot of EVERY package-level variable of "
         "parser and interpreter (accessor generated from the working tree; the locked instance counter excepted) is identical before and after"),
  "C15": dict(engine="engine-A", cat="model_checking", ref="DESIGN.md 4, 7/C15", note=SCHED_NOTE + "; the debugger console is modelled by a driver thread that polls `status` (a yielding sleep) and answers every reported suspension with the next command of its script", tech=SCHED_TECH + " + exhaustive enumeration of breakpoint sets x command scripts under the default schedule",
-   text="(1) for 9 programs (straight line, function calls 1-2 deep, a call as argument of a call, nested block scopes with a range loop inside a function, loop, try/raise, if/else, runtime error) every breakpoint subset of <= 2 "
+   text="(1) for 10 programs (straight line, function calls 1-2 deep, a call as argument of a call, nested block scopes with a range loop inside a function, recursion 12 frames deep - beyond the initial capacity of the debugger's per-thread stacks -, loop, try/raise, if/else, runtime error) every breakpoint subset of <= 2 "
         "lines x every command script of length <= 2 over {resume, stepin, stepover, stepout} plus stop-all variants is run on fresh real "
         "debuggers (about 3500 configurations) and compared with the undebugged run (result, log, final variables) and, with break-on-error off, "
         "with the suspension lines derived from the program's line trace; (1b) on a 12-line program every history of <= 2 (thorough 3) breakpoint "
@@ -67,7 +67,7 @@ CHECKS = {
         "thread always leaves suspension (no deadlock / endless polling), no panic, same outcome as undebugged, with break-on-error off the sequence "
         "of suspension lines equals the one derived from the line trace under every schedule, no unordered access to a debugger field"),
  "C16": dict(engine="engine-A", cat="model_checking", ref="DESIGN.md 5.3, 7/C16", note="default schedule only (the property is about the command interface, not about timing); canonical state = status output, per-thread (running, error, stack depth, line), breakpoint table and global variables; the debugger lock is read off the vsched shim through an overlay-added export seam", tech="explicit-state breadth-first search over the real debugger object: a state is the command history that reaches it, successors are built on fresh objects by replay, de-duplicated on a canonical observable form, invariant evaluated after every command",
-   text="from 11 debugger states (incl. a list variable with container paths as extract / inject targets, nested block scopes, a call inside a call argument; the original 8: (nothing executed, program finished, thread suspended at top level / 1 / 2 calls deep / on an error with map "
+   text="from 13 debugger states (incl. a list variable with container paths as extract / inject targets, nested block scopes, a call inside a call argument, threads suspended in scope chains that do not end in the global scope - the default value of a constructor parameter under new(), the second call of a chained call o.f().g(); every state's breadth-first search stops deterministically after 3500 transitions (thorough tier only; reported as caps_hit); the original 8: (nothing executed, program finished, thread suspended at top level / 1 / 2 calls deep / on an error with map "
         "data / at the first-ever visit of a single-statement program by breakpoint and by break-on-start)) every command line of a 140-390 line menu (10 commands + unknown, 0-4 arguments over valid/finished/zero/negative/huge/non-numeric "
         "thread ids, known/unknown/malformed source:line targets, identifiers, expressions, garbage) is applied in every distinct canonical "
         "state up to depth 2 (thorough 3); invariant: no panic, result JSON-encodable when the error is nil, debugger lock free afterwards, "
@@ -83,7 +83,8 @@ CHECKS = {
         "(iii) breadth-first search over monitor operation histories {new child(p), activate, skip, finish} on "
         "real monitors (up to 4-5 monitors, depth 8-10, canonical state = multiset of (priority, status)): HighestPriority == lowest number among "
         "activated unfinished monitors else -1; (iv) 5 concurrent drivers (2-3 workers, mixed priorities) under every schedule with <= 1-2 preemptions: "
-        "no event is taken while a more urgent or older-equal event of its cascade is queued"),
+        "no event is taken while a more urgent or older-equal event of its cascade is queued; (v) two events with 2-3 rules each processed at the same time on 2 workers (every action yields, first rule failing or not): "
+        "each event runs exactly its own rules in ascending priority"),
  "C17": dict(engine="engine-B", cat="exploration", ref="DESIGN.md 5, 7/C17", note="lexical containment as the property defines it (symbolic links are not followed by the reference normaliser); file-system calls of util/import.go are observed through a mechanical build-time redirection of ioutil.ReadFile/os.Open/os.Stat to recording wrappers; an error is always an admissible answer", tech="bounded exhaustive enumeration of inputs against an independent reference model (stack-based lexical path normaliser) plus observation of every file-system call",
    text="FileImportLocator.Resolve for every path of <= 5 (thorough 6) segments over {a, sub, .., ., '', a.b, ..a, 'a b'} (and of <= 3 segments over 10 "
         "segments with foreign separators and encodings: ..\\a, sub\\.., %2e%2e, ..;, NUL, ~) with optional leading and "
@@ -184,7 +185,8 @@ CHECKS = {
         "catchable by try/except; a failing sink does not fail its caller. The universe includes NaN and +-Inf; built-in arguments are also reached "
         "through a call, an index, a field and parentheses (argument expression shapes); caught errors whose trace runs through commented calls; a "
         "malformed regular expression and a map holding a list are in the universe, every failing case is evaluated a second time inside try/except; "
-        "every field of a caught error object (type, detail, data, trace, line, ...) as operand of ==, in, len, concat, indexing, for; 15 kinds of failure directly in a sink body, collected through addEventAndWait and used"),
+        "every field of a caught error object (type, detail, data, trace, line, ...) as operand of ==, in, len, concat, indexing, for; 15 kinds of failure directly in a sink body, collected through addEventAndWait and used; every quoted string literal body of <= 5 (thorough 6) pieces over {{{, }}, {, }, x, 1/0, space, a} at top level, inside try/except and in a sink body (closing markers before opening ones, unbalanced braces, failing substitutions); "
+        "a list that contains itself is rendered in a worker process of its own (recorded finding: unrecoverable stack overflow)"),
  "C05": dict(engine="engine-B", cat="exploration", ref="DESIGN.md 5.2, 7/C05, 9a", note="reading an undefined name yields NULL (pinned by the suite); every block is entered once per program; reads of the argument of add/del after the call are left open; a failing statement inside try has no effect", tech="bounded exhaustive enumeration of programs and container operation sequences against boring reference models written in Go (environment chain, closures as Go values, slice/map model)",
    text="scoping: global definition x outer block kind (if, for, function, mutex, try) x outer statement (none, assignment, let) x inner block kind x inner "
         "statement x late let, probed at three levels (900 programs) against an environment-chain model; functions: parameters x 5 default kinds x 0-3 "
